@@ -14,6 +14,266 @@ extern "C" const char* __asan_default_options() {
 
 static const char* TAG = "c25";
 
+// ---- coarse ("segment") schedules + hook observer ------------------------------------------------------------------------
+// A case may carry, in front of the byte schedule, a list of segments `tid:cond`: thread tid runs (and nobody else) until
+//   <n>  it has passed n hook points,
+//   o    its current insert call has returned (checked at its next hook point),
+//   *    it has finished its list,
+//   w    it stands at a hold-and-wait point: a lock operation on a lock it does not hold while it holds the write lock
+//        of at least one node (btree::insert "lock parents": leaf locked, about to lock the parent / grand parent / root
+//        lock; rebalance: about to try-lock the left sibling),
+// or until it cannot continue (done, or spinning on a taken lock); then the next segment starts. A segment whose thread
+// is done or spinning when its turn comes is skipped. Once all segments are used up the byte schedule + tail take over.
+// This makes schedules cheap to express in which a writer stays descheduled exactly in front of a lock acquisition while
+// other writers complete whole insertions (each of which takes dozens of hook points).
+//
+// Lock ownership is reconstructed from the hooks alone: every OptimisticReadWriteLock operation announces itself (P_LOCK,
+// obj = the lock) before it executes, and between two consecutive hooks of one thread exactly that one operation was
+// executed by it; its effect is read off is_write_locked() at the thread's next hook (or when its insert returns).
+struct Seg {
+    int tid = 0;
+    char kind = 'n';   // n, o, *, w
+    int n = 0;
+};
+static std::vector<Seg> parseSegs(const std::string& s) {
+    std::vector<Seg> v;
+    std::istringstream is(s);
+    std::string p;
+    while (is >> p) {
+        auto c = p.find(':');
+        if (c == std::string::npos) continue;
+        Seg g;
+        g.tid = std::atoi(p.substr(0, c).c_str());
+        const std::string k = p.substr(c + 1);
+        if (k == "o" || k == "*" || k == "w")
+            g.kind = k[0];
+        else {
+            g.kind = 'n';
+            g.n = std::max(1, std::atoi(k.c_str()));
+        }
+        v.push_back(g);
+    }
+    return v;
+}
+static std::string segText(const std::vector<Seg>& v) {
+    std::string s;
+    for (auto& g : v) s += (s.empty() ? "" : " ") + std::to_string(g.tid) + ":" + (g.kind == 'n' ? std::to_string(g.n) : std::string(1, g.kind));
+    return s;
+}
+
+struct SegSource : vsched::ChoiceSource, PhaseObserver {
+    using Lock = souffle::OptimisticReadWriteLock;
+    std::vector<Seg> segs;
+    vsched::ByteSource bytes;
+    // segment interpreter
+    std::size_t si = 0;
+    bool started = false;
+    int count = 0;
+    std::size_t ops0 = 0;
+    // observer state (per phase)
+    int n = 0;
+    std::map<const void*, int> owner;        // write-locked lock -> thread
+    std::vector<const Lock*> pend;           // lock of the thread's announced, not yet settled operation
+    std::vector<const void*> prevObj;        // lock of the thread's previous P_LOCK hook
+    std::vector<char> prevAcquire;           // ... which the thread did not hold at that hook
+    std::vector<char> relAfterAcq;           // the thread released a lock right after acquiring it, holding another one
+    std::vector<int> holds, switches, maxHeld;   // per thread: locks held; per current insert: parent switches, most locks held at once
+    std::set<const void*> seen;              // locks announced by any thread in this phase
+    std::vector<char> atHW;
+    std::vector<std::size_t> opsDone;
+    int curTid = -1;
+    // statistics of the whole case
+    long hwPoints = 0, hwParks = 0, holdAndSpin = 0, parentSwitch = 0, parentSwitchTwice = 0, mostHeld = 0, segsUsed = 0;
+
+    SegSource(const Case& c) : segs(parseSegs(c.segments)), bytes(c.sched, c.tail) {}
+
+    void phaseBegin(vsched::Scheduler& sch, int nthreads) override {
+        n = nthreads;
+        owner.clear();
+        pend.assign(n, nullptr);
+        prevObj.assign(n, nullptr);
+        prevAcquire.assign(n, 0);
+        relAfterAcq.assign(n, 0);
+        holds.assign(n, 0);
+        switches.assign(n, 0);
+        maxHeld.assign(n, 0);
+        seen.clear();
+        atHW.assign(n, 0);
+        opsDone.assign(n, 0);
+        sch.onPoint = [this](int tid, int kind, const void* obj) { point(tid, kind, obj); };
+    }
+    void settle(int t) {
+        const Lock* x = pend[t];
+        if (!x) return;
+        pend[t] = nullptr;
+        auto it = owner.find(x);
+        if (x->is_write_locked()) {
+            if (it == owner.end()) {
+                owner[x] = t;
+                holds[t]++;
+            }
+        } else if (it != owner.end()) {
+            holds[it->second]--;
+            owner.erase(it);
+        }
+    }
+    void opDone(int tid, std::size_t) override {
+        if (tid >= n) return;
+        settle(tid);
+        opsDone[tid]++;
+        mostHeld = std::max<long>(mostHeld, maxHeld[tid]);
+        if (switches[tid] >= 2) parentSwitchTwice++;
+        switches[tid] = 0;
+        maxHeld[tid] = 0;
+        prevObj[tid] = nullptr;
+        relAfterAcq[tid] = 0;
+    }
+    void point(int tid, int kind, const void* obj) {
+        if (tid >= n) return;
+        curTid = tid;
+        atHW[tid] = 0;
+        if (kind == souffle::verif::P_SPIN) {   // the announced operation is still waiting: not settled yet
+            if (holds[tid] > 0) holdAndSpin++;
+            return;
+        }
+        settle(tid);
+        maxHeld[tid] = std::max(maxHeld[tid], holds[tid]);
+        if (kind != souffle::verif::P_LOCK) return;
+        auto it = owner.find(obj);
+        const bool mine = it != owner.end() && it->second == tid;
+        if (!mine && holds[tid] > 0) {
+            atHW[tid] = 1;
+            hwPoints++;
+            // start_write(P); abort_write(P); start_write(P'): the node was re-parented while the thread was on its way to P's
+            // lock. (try_start_write(left); abort_write(left); start_write(new sibling) looks alike, but nobody has announced an
+            // operation on a node this thread is only just creating, whereas whoever re-parented the node had P' locked.)
+            if (relAfterAcq[tid] && seen.count(obj)) {
+                parentSwitch++;
+                switches[tid]++;
+            }
+        }
+        seen.insert(obj);
+        relAfterAcq[tid] = (mine && prevObj[tid] == obj && prevAcquire[tid] && holds[tid] >= 2) ? 1 : 0;
+        prevObj[tid] = obj;
+        prevAcquire[tid] = mine ? 0 : 1;
+        pend[tid] = static_cast<const Lock*>(obj);
+    }
+    int pick(const std::vector<int>& cands, bool currentFirst, std::uint64_t step) override {
+        while (si < segs.size()) {
+            const Seg& g = segs[si];
+            const bool present = g.tid >= 0 && g.tid < n && std::find(cands.begin(), cands.end(), g.tid) != cands.end();
+            if (!present) {
+                si++;
+                started = false;
+                continue;
+            }
+            if (!started) {
+                started = true;
+                count = 0;
+                ops0 = opsDone[g.tid];
+                segsUsed++;
+                return g.tid;
+            }
+            if (currentFirst && cands[0] == g.tid) {
+                count++;
+                bool over = false;
+                switch (g.kind) {
+                    case 'n': over = count >= g.n; break;
+                    case 'o': over = opsDone[g.tid] > ops0; break;
+                    case 'w': over = atHW[g.tid] != 0; break;
+                    default: over = false;
+                }
+                if (over) {
+                    if (g.kind == 'w') hwParks++;
+                    si++;
+                    started = false;
+                    continue;
+                }
+            }
+            return g.tid;
+        }
+        return bytes.pick(cands, currentFirst, step);
+    }
+};
+
+static Result runWithSegs(const Case& c, SegSource& src) {
+    g_observer = &src;
+    Result r = runCase(c, &src);
+    g_observer = nullptr;
+    return r;
+}
+static void accountObserved(hc::Stats& st, const Case& c, const Result& r, const SegSource& src) {
+    if (r.inconclusive) return;
+    st.cls(c.segments.empty() ? "family=classic" : "family=cascade");
+    if (src.hwPoints) st.cls("hold_and_wait_point");
+    if (src.mostHeld >= 4) st.cls("cascade_two_levels");   // one insert held >= 4 write locks at once: leaf, two ancestors (or root lock) and a sibling
+    if (src.hwParks) st.cls("parked_at_hold_and_wait");
+    if (src.holdAndSpin) st.cls("hold_and_spin");
+    if (src.parentSwitch) st.cls("parent_changed_while_waiting");
+    if (src.parentSwitchTwice) st.cls("parent_changed_twice_while_waiting");
+}
+
+// ---- the tree's own shape (generator side) -----------------------------------------------------------------------------
+struct NodeInfo {
+    const void* id = nullptr;
+    bool inner = false;
+    int n = 0, parent = -1, pos = 0, depth = 0;   // depth: root = 1
+    std::vector<std::int32_t> keys;   // last key component
+    std::vector<int> children;
+};
+using Shape = std::vector<NodeInfo>;
+template <typename Tree, int N>
+struct Peek : public Tree {
+    void collect(Shape& out) const {
+        out.clear();
+        if (this->root) rec(this->root, -1, 0, 1, out);
+    }
+
+private:
+    template <typename NodeT>
+    static int rec(const NodeT* nd, int parent, int pos, int depth, Shape& out) {
+        const int me = (int)out.size();
+        out.push_back(NodeInfo{});
+        out[me].id = nd;
+        out[me].inner = nd->inner;
+        out[me].n = (int)nd->numElements;
+        out[me].parent = parent;
+        out[me].pos = pos;
+        out[me].depth = depth;
+        for (std::size_t i = 0; i < nd->numElements; i++) out[me].keys.push_back(nd->keys[i].v[N - 1]);
+        if (nd->inner)
+            for (std::size_t i = 0; i <= nd->numElements; i++) {
+                const int ch = rec(nd->getChild(i), me, (int)i, depth + 1, out);
+                out[me].children.push_back(ch);
+            }
+        return me;
+    }
+};
+// sequentially inserts `base`, then the keys of `steps` one by one; snapshot after base and after every step
+struct ShapeVisitor {
+    const std::vector<KeyV>& base;
+    const std::vector<KeyV>& steps;
+    std::vector<Shape> snaps;
+    template <typename CFG>
+    void visit() {
+        constexpr int N = CFG::arity;
+        Peek<typename CFG::Set, N> t;
+        for (auto& k : base) t.insert(toKey<N>(k));
+        snaps.emplace_back();
+        t.collect(snaps.back());
+        for (auto& k : steps) {
+            t.insert(toKey<N>(k));
+            snaps.emplace_back();
+            t.collect(snaps.back());
+        }
+    }
+};
+static std::vector<Shape> shapesOf(const Case& c, const std::vector<KeyV>& base, const std::vector<KeyV>& steps) {
+    ShapeVisitor v{base, steps, {}};
+    forConfig(c.arity, c.maxKeys, c.search, v);
+    return v.snaps;
+}
+
 // ---- generator ---------------------------------------------------------------------------------------------------------
 static std::vector<std::vector<KeyV>> genThreadLists(const Domain& d, int mk) {
     const int n = *rc::gen::weightedElement<int>({{5, 2}, {4, 3}, {3, 4}, {1, 5}, {1, 6}, {1, 8}});
@@ -78,6 +338,275 @@ static std::vector<std::vector<KeyV>> genThreadLists(const Domain& d, int mk) {
     return lists;
 }
 
+// ---- cascade family: deep trees with full nodes, writers aimed at one region, coarse schedules ----------------------------
+// The pre-fill is a generated recipe (ascending / descending / shuffled / ascending with late random insertions) over
+// distinct, evenly spaced keys for maxKeys 3 or 4, so that the tree has 3-5 levels. The generator then looks at the shape the
+// real tree takes (a scratch tree built sequentially through the same btree code) and
+//   * picks a "hot" inner node above the leaves (preferably a full, non-root one) and tops up the leaves below it and below
+//     its neighbours with fresh keys until they are full (inserting into a non-full leaf does not restructure anything),
+//   * searches, by sequential simulation on the scratch tree, for two fresh keys k2, k3 whose insertions (in this order)
+//     re-parent one and the same full leaf twice (inner node split / inner rebalance to the left sibling), and a fresh
+//     key k1 that lands in that leaf; failing that for a single re-parenting; failing that it takes random leaves of the region,
+//   * gives k1, k2, k3 to three threads (plus 0-2 more threads / second keys in the same region), and
+//   * generates a segment schedule, mostly of the shape  v:w a:o v:w b:o [v:w c:o]  (victim v is descheduled in front of
+//     every lock it has to wait for while holding its leaf; in between another thread completes a whole insertion).
+struct CascadeInfo {
+    int config = 0;   // 2 double move found, 1 single move, 0 none
+    int depth = 0;
+    bool roles = false, pathFull = false;
+};
+static CascadeInfo g_lastCascade;
+
+struct LeafRange {
+    int node;
+    std::int64_t lo, hi;   // exclusive bounds for a fresh key landing in this leaf
+};
+// in-order walk: the bounds of every leaf
+static void leafRanges(const Shape& sh, int nd, std::int64_t lo, std::int64_t hi, std::vector<LeafRange>& out) {
+    const NodeInfo& x = sh[nd];
+    if (!x.inner) {
+        out.push_back({nd, lo, hi});
+        return;
+    }
+    for (int i = 0; i <= x.n; i++) leafRanges(sh, x.children[i], i == 0 ? lo : x.keys[i - 1], i == x.n ? hi : x.keys[i], out);
+}
+static bool freshIn(const LeafRange& r, std::set<std::int64_t>& used, std::int64_t& out) {
+    std::vector<std::int64_t> cand;
+    for (std::int64_t v = r.lo + 1; v < r.hi && cand.size() < 64; v++)
+        if (!used.count(v)) cand.push_back(v);
+    if (cand.empty()) return false;
+    out = cand[*hc::R<std::size_t>(0, cand.size())];
+    used.insert(out);
+    return true;
+}
+
+static Case genCascadeCase() {
+    Case c;
+    c.tag = TAG;
+    CascadeInfo info;
+    const int cfgIdx = *rc::gen::weightedElement<int>({{3, 0}, {2, 4}, {2, 6}, {2, 1}, {2, 5}});   // maxKeys 3 and 4
+    const CfgId cfg = allConfigs()[cfgIdx];
+    c.arity = cfg.arity;
+    c.maxKeys = cfg.maxKeys;
+    c.search = cfg.search;
+    c.structure = *rc::gen::weightedElement<int>({{3, ST_SET}, {2, ST_MULTI}});
+    c.hints = *hc::R(0, 3) == 0;
+    const int mk = cfg.maxKeys;
+    const std::int32_t lead = *rc::gen::element<std::int32_t>(0, 0, 1, -1, 7);
+    const int gap = *rc::gen::element(6, 8, 16);
+    const std::int64_t base = *rc::gen::element<std::int64_t>(1000, 0, -500);
+    auto mkKey = [&](std::int64_t v) {
+        KeyV k{0, 0, 0};
+        for (int i = 0; i + 1 < c.arity; i++) k[i] = lead;
+        k[c.arity - 1] = (std::int32_t)v;
+        return k;
+    };
+    // pre-fill recipe
+    const int n0 = mk == 3 ? *hc::R(10, 60) : *hc::R(18, 90);
+    std::vector<int> ranks(n0);
+    for (int i = 0; i < n0; i++) ranks[i] = i;
+    const int recipe = *rc::gen::weightedElement<int>({{5, 0}, {2, 1}, {2, 2}, {3, 3}});
+    auto shuffle = [&](std::vector<int>& v, std::size_t from) {
+        for (std::size_t i = v.size(); i > from + 1; i--) std::swap(v[i - 1], v[from + *hc::R<std::size_t>(0, i - from)]);
+    };
+    if (recipe == 1) std::reverse(ranks.begin(), ranks.end());
+    if (recipe == 2) shuffle(ranks, 0);
+    if (recipe == 3) {   // ascending backbone, then the remaining ranks in random order
+        std::vector<int> first, rest;
+        const int every = *hc::R(2, 5);
+        for (int i = 0; i < n0; i++) (i % every ? first : rest).push_back(i);
+        shuffle(rest, 0);
+        ranks = first;
+        ranks.insert(ranks.end(), rest.begin(), rest.end());
+    }
+    std::set<std::int64_t> used;
+    for (int r : ranks) {
+        c.prefill.push_back(mkKey(base + (std::int64_t)r * gap));
+        used.insert(base + (std::int64_t)r * gap);
+    }
+    const std::int64_t LO = base - 8 * gap, HI = base + (std::int64_t)(n0 + 8) * gap;
+    Shape sh = shapesOf(c, c.prefill, {})[0];
+    // hot node: an inner node directly above leaves
+    std::vector<int> level1;
+    for (int i = 0; i < (int)sh.size(); i++)
+        if (sh[i].inner && !sh[sh[i].children[0]].inner) level1.push_back(i);
+    std::vector<LeafRange> ranges;
+    if (!sh.empty()) leafRanges(sh, 0, LO, HI, ranges);
+    std::vector<LeafRange> region;
+    if (!level1.empty()) {
+        std::vector<std::pair<int, int>> w;   // weight, index into level1
+        std::size_t total = 0;
+        for (int i = 0; i < (int)level1.size(); i++) {
+            const NodeInfo& x = sh[level1[i]];
+            int wt = 1;
+            if (x.n == mk) wt += 3;
+            if (x.parent >= 0) wt += 2;
+            if (x.n == mk && x.pos > 0 && sh[sh[x.parent].children[x.pos - 1]].n < mk) wt += 4;
+            w.push_back({wt, i});
+            total += wt;
+        }
+        std::size_t pickW = *hc::R<std::size_t>(0, total);
+        int hi = 0;
+        for (auto& e : w) {
+            if (pickW < (std::size_t)e.first) {
+                hi = e.second;
+                break;
+            }
+            pickW -= e.first;
+        }
+        // region: the leaves under the hot node and under its level-order neighbours
+        const int from = std::max(0, hi - 1), to = std::min((int)level1.size() - 1, hi + (*hc::R(0, 2)));
+        std::set<int> hotParents(level1.begin() + from, level1.begin() + to + 1);
+        for (auto& r : ranges)
+            if (hotParents.count(sh[r.node].parent)) region.push_back(r);
+    } else
+        region = ranges;
+    // top up the leaves of the region
+    const int fillPct = *rc::gen::element(100, 100, 85, 50);
+    for (auto& r : region) {
+        if (*hc::R(0, 100) >= fillPct) continue;
+        for (int k = sh[r.node].n; k < mk; k++) {
+            std::int64_t v;
+            if (!freshIn(r, used, v)) break;
+            c.prefill.push_back(mkKey(v));
+        }
+    }
+    sh = shapesOf(c, c.prefill, {})[0];
+    for (auto& x : sh) info.depth = std::max(info.depth, x.depth);
+    ranges.clear();
+    if (!sh.empty()) leafRanges(sh, 0, LO, HI, ranges);
+    // the region again, in the topped-up tree (same inner structure, node indices unchanged since leaves did not split)
+    {
+        std::set<int> keep;
+        for (auto& r : region) keep.insert(r.node);
+        region.clear();
+        for (auto& r : ranges)
+            if (keep.count(r.node)) region.push_back(r);
+        if (region.empty()) region = ranges;
+    }
+    // is there a root-to-leaf path of full nodes in the region?
+    for (auto& r : region) {
+        bool full = true;
+        for (int x = r.node; x >= 0; x = sh[x].parent) full = full && sh[x].n == mk;
+        if (full) info.pathFull = true;
+    }
+    auto randLeaf = [&]() -> const LeafRange& { return region[*hc::R<std::size_t>(0, region.size())]; };
+    // search for k2, k3 that re-parent one full leaf twice
+    std::int64_t k1 = 0, k2 = 0, k3 = 0;
+    bool have = false;
+    {
+        std::int64_t s1 = 0, s2 = 0, s3 = 0;
+        bool single = false;
+        for (int attempt = 0; attempt < 24 && !have; attempt++) {
+            std::set<std::int64_t> u2 = used;
+            const LeafRange &a = randLeaf(), &b = randLeaf();
+            std::int64_t x2, x3;
+            if (!freshIn(a, u2, x2) || !freshIn(b, u2, x3)) continue;
+            auto snaps = shapesOf(c, c.prefill, {mkKey(x2), mkKey(x3)});
+            if (snaps.size() != 3) continue;
+            auto parentOf = [](const Shape& s) {
+                std::map<const void*, const void*> m;
+                for (auto& x : s)
+                    if (!x.inner) m[x.id] = x.parent >= 0 ? s[x.parent].id : nullptr;
+                return m;
+            };
+            auto m0 = parentOf(snaps[0]), m1 = parentOf(snaps[1]), m2 = parentOf(snaps[2]);
+            std::vector<int> twice, once;
+            for (auto& r : region) {
+                const NodeInfo& x = snaps[0][r.node];
+                if (x.n != mk || r.node == a.node || r.node == b.node) continue;
+                const void* p0 = m0[x.id];
+                const void* p1 = m1[x.id];
+                const void* p2 = m2[x.id];
+                if (p0 != p1 && p1 != p2) twice.push_back(r.node);
+                else if (p0 != p1) once.push_back(r.node);
+            }
+            auto take = [&](const std::vector<int>& v, std::int64_t& out) {
+                const int nd = v[*hc::R<std::size_t>(0, v.size())];
+                for (auto& r : region)
+                    if (r.node == nd) return freshIn(r, u2, out);
+                return false;
+            };
+            std::int64_t x1;
+            if (!twice.empty() && take(twice, x1)) {
+                k1 = x1, k2 = x2, k3 = x3;
+                have = true;
+                info.config = 2;
+            } else if (!single && !once.empty() && take(once, x1)) {
+                s1 = x1, s2 = x2, s3 = x3;
+                single = true;
+            }
+        }
+        if (!have && single) {
+            k1 = s1, k2 = s2, k3 = s3;
+            have = true;
+            info.config = 1;
+        }
+    }
+    std::vector<std::vector<KeyV>> lists;
+    auto anyKey = [&]() -> KeyV {
+        if (*hc::R(0, 8) == 0 && !c.prefill.empty()) return c.prefill[*hc::R<std::size_t>(0, c.prefill.size())];   // duplicate
+        std::int64_t v;
+        if (freshIn(randLeaf(), used, v)) return mkKey(v);
+        return mkKey(HI + *hc::R(0, 50));
+    };
+    if (have) {
+        used.insert(k1);
+        used.insert(k2);
+        used.insert(k3);
+        lists = {{mkKey(k1)}, {mkKey(k2)}, {mkKey(k3)}};
+    } else
+        lists = {{anyKey()}, {anyKey()}, {anyKey()}};
+    const int extraThreads = *rc::gen::weightedElement<int>({{5, 0}, {3, 1}, {1, 2}});
+    for (int i = 0; i < extraThreads; i++) lists.push_back({anyKey()});
+    for (auto& l : lists)
+        if (*hc::R(0, 4) == 0) l.push_back(anyKey());
+    // thread order
+    const int n = (int)lists.size();
+    std::vector<int> perm(n);
+    for (int i = 0; i < n; i++) perm[i] = i;
+    shuffle(perm, 0);
+    Phase ph;
+    ph.threads.resize(n);
+    for (int i = 0; i < n; i++) ph.threads[perm[i]] = lists[i];
+    c.phases.push_back(ph);
+    // schedule
+    std::vector<int> order(n);   // victim, a, b, c...
+    info.roles = *hc::R(0, 4) != 0;
+    if (info.roles)
+        for (int i = 0; i < n; i++) order[i] = perm[i];
+    else {
+        for (int i = 0; i < n; i++) order[i] = i;
+        shuffle(order, 0);
+    }
+    std::vector<Seg> segs;
+    const int pattern = *rc::gen::weightedElement<int>({{12, 0}, {3, 1}, {3, 2}, {2, 3}});
+    auto seg = [&](int t, char k, int cnt = 0) { segs.push_back(Seg{t, k, cnt}); };
+    if (pattern == 3) {
+        const int m = *hc::R(3, 7);
+        for (int i = 0; i < m; i++) {
+            const char k = *rc::gen::element('n', 'n', 'o', 'w', '*');
+            seg(*hc::R(0, n), k, k == 'n' ? *hc::R(1, 15) : 0);
+        }
+    } else {
+        const int rounds = *rc::gen::weightedElement<int>({{1, 1}, {6, 2}, {3, 3}});
+        for (int i = 0; i < rounds; i++) {
+            if (pattern == 2)
+                seg(order[0], 'n', i == 0 ? *hc::R(4, 15) : *hc::R(1, 4));
+            else
+                seg(order[0], 'w');
+            seg(order[1 + (i % (n - 1))], pattern == 1 ? '*' : 'o');
+        }
+    }
+    c.segments = segText(segs);
+    const int nq = *hc::R(0, 3);
+    for (int i = 0; i < nq; i++) c.queries.push_back(mkKey(base + *hc::R(-2 * gap, (n0 + 2) * gap)));
+    if (*hc::R(0, 2) == 0) c.sched = *rc::gen::container<std::vector<std::uint8_t>>(rc::gen::arbitrary<std::uint8_t>());
+    c.tail = *hc::R<std::uint64_t>(1, 1u << 30);
+    g_lastCascade = info;
+    return c;
+}
+
 static Case genCase() {
     Case c;
     c.tag = TAG;
@@ -113,8 +642,8 @@ int main(int argc, char** argv) {
     hc::Pending pending(args.pending);
     if (!args.replay.empty()) {
         Case c = Case::parse(hc::readFile(args.replay));
-        vsched::ByteSource src(c.sched, c.tail);
-        Result r = runCase(c, &src);
+        SegSource src(c);
+        Result r = runWithSegs(c, src);
         if (!r.ok) {
             std::cout << "FAIL: " << r.msg << "\n";
             return 1;
@@ -124,18 +653,24 @@ int main(int argc, char** argv) {
     }
     if (args.mode == "dfs") return dfsMain(args, st, pending, TAG, (int)args.num("structure", ST_SET));
     hc::setRcParams(args);
+    const int cascadePct = (int)args.num("cascade", 25);   // share (%) of cascade-family cases among the random cases
     Case lastFail;
     std::string lastMsg;
-    std::uint64_t counter = 0;
+    std::uint64_t counter = 0, generated = 0, cascadeCases = 0;
     bool ok = rc::check("B-tree sets behave as sorted sets under concurrent insertion", [&] {
-        Case c = genCase();
-        pending.set(c.text());
-        vsched::ByteSource src(c.sched, c.tail);
-        Result r = runCase(c, &src);
+        const bool cascade = cascadePct > 0 && *hc::R(0, 100) < cascadePct;
+        Case c = cascade ? genCascadeCase() : genCase();
+        // the trailing comment line tells, for a case that aborted the process, how many cases it took
+        pending.set(c.text() + "# case " + std::to_string(generated + 1) + " of its run; " + std::to_string(cascadeCases) + " cascade-family and " +
+                    std::to_string(generated - cascadeCases) + " classic cases ran before it\n");
+        generated++;
+        if (cascade) cascadeCases++;
+        SegSource src(c);
+        Result r = runWithSegs(c, src);
         if (r.ok && !r.inconclusive && (++counter % 256) == 0) {
             // determinism re-check: the same case and schedule must give the same observable history
-            vsched::ByteSource src2(c.sched, c.tail);
-            Result r2 = runCase(c, &src2);
+            SegSource src2(c);
+            Result r2 = runWithSegs(c, src2);
             if (r2.sig != r.sig || r2.ok != r.ok)
                 st.inconclusive["nondeterministic_rerun"]++;
             else
@@ -143,6 +678,14 @@ int main(int argc, char** argv) {
         }
         pending.clear();
         accountConc(st, c, r);
+        accountObserved(st, c, r, src);
+        if (cascade && !r.inconclusive) {
+            const CascadeInfo& ci = g_lastCascade;
+            st.cls(ci.config == 2 ? "cascade:config_double_reparent" : ci.config == 1 ? "cascade:config_single_reparent" : "cascade:config_none");
+            st.cls("cascade:depth=" + std::to_string(ci.depth));
+            if (ci.pathFull) st.cls("cascade:full_root_to_leaf_path");
+            if (ci.roles) st.cls("cascade:schedule_follows_roles");
+        }
         if (!r.ok) {
             lastFail = c;
             lastMsg = r.msg;
